@@ -242,7 +242,7 @@ pub fn sem_mode(t_ms: u64, out: &mut impl Write) {
     // control: the listener is inside its timed wait, then the notifier runs undisturbed: immediate wake-up
     let (n, took, nret, ok, dl) = sem_run("ctl", t_ms, vec![0; 14]);
     let _ = writeln!(out, "SEM control    timed_wait({}ms) returned {} event(s) after {} ms; second notify returned Ok={} {} ms after the wait began; deadlock={}", t_ms, n, took, ok, nret, dl);
-    let ctl_ok = ok && !dl && n >= 1 && (took as u64) < t_ms / 2;
+    let ctl_ok = ok && !dl && n >= 1 && (took as u64) < t_ms * 8 / 10;
     // the lost wake-up schedule (model witness with the trigger operations as steps):
     // (every semaphore operation = scheduling point + the two gated accesses of bb-posix's handle (is_initialized load, cell) + the libc call)
     // L: CAS N->I fails, try_wait (3), store Idle | N: as_ptr, fetch_add, CAS I->P ok, sem_post (3) | L: empty_buffer (5: eats the token), second store Idle (the repair c0b284e), as_ptr, swap (delivers),
